@@ -21,10 +21,12 @@ P = {
         "(c19_period_le_second, c19_period_at_once, c19_period_json); decoding a period document is a function of the document and the clock only, never of "
         "what the Go value held before (c19_period_decode_history_independent, c19_period_decode_relative - trivial in the model, tied to UnmarshalJSON by "
         "sequences of decodes into ONE value, directly and through a surrounding struct, with a fresh-value reference and an alias check on copies of the earlier value). "
-        "Instants: only the glue is modelled, over the layout strings regenerated from the source on every run: some layout tried accepts the formatted text and "
-        "the first that does reads every element back the way it was written, the instant is rounded to the second and converted to UTC first "
-        "(c19_datetime_first_match, c19_datetime_whole_second_utc, c19_plain_and_z_forms); calendar arithmetic and time.Format/Parse are assumed (A-time), "
-        "the round trip itself is monitored on the real code (years 1-9999, zones, fractions)."
+        "Instants: only the glue is modelled, over facts regenerated from the tree under test on every run in two independent ways: DYNAMIC (the compiled code is "
+        "probed with a fixed universe of text shapes: the shape NewDateTimeTypeFromTime writes is accepted and read as the right instant, it rounds to the second and "
+        "converts to UTC, every getter accepts the plain and the Z form - c19_datetime_written_is_read, c19_datetime_whole_second_utc, c19_plain_and_z_forms) and STATIC "
+        "(the layout strings found in the source by structural search - anchors are the exported names only; guarded cross-checks c19_ast_first_match, "
+        "c19_ast_format_agrees, c19_ast_layouts_accepted, vacuous when a refactoring hides the strings, broken when a layout that is found contradicts the glue); "
+        "calendar arithmetic and time.Format/Parse are assumed (A-time), the round trip itself is monitored on the real code (years 1-9999, zones, fractions)."
     ),
     "level_note": (
         "The probe phase selects the member of the model family (flags truncScaled, inexactPower) that matches the tree under test; the same check "
